@@ -103,7 +103,8 @@ func runC15(c *Checker) {
 	}
 	c.floor("RDC-1", 6)
 	ruleSessionReset(c, "RDC-2")
-	c.floor("RDC-2", 7)
+	ruleReadAtomic(c, "RDC-2")
+	c.floor("RDC-2", 8)
 	writes := ioMethods(w, targetMbox, "Write")
 	for _, fn := range writes {
 		checkWriteMethod(c, rg, fn)
